@@ -1307,6 +1307,7 @@ def replay_params_modes(a):
         return {"reproduced": False, "note": "native build failed"}
     cases = {
         "maps, rule needs the parameter on every file": ("rule r {\n  p == 1\n  a exists\n}\n", '{"p":\n 1}\n', ['{"a":\n 1}\n', '{"a":\n 2}\n', '{"a":\n 3}\n']),
+        "empty data document, rule needs the parameter": ("rule r {\n  p == 1\n}\n", '{"p":\n 1}\n', ['{}\n', '{"a":\n 1}\n']),
         "lists, rule looks at position 0": ("rule first {\n  this[0].kind == \"baseline\"\n}\n", '[ {"kind":\n "baseline"} ]\n', ['[ {"kind":\n "workload"} ]\n']),
         "lists, rule looks at the last position": ("rule last {\n  this[1].kind == \"workload\"\n}\n", '[ {"kind":\n "baseline"} ]\n', ['[ {"kind":\n "workload"} ]\n', '[ {"kind":\n "workload"} ]\n']),
     }
@@ -1509,6 +1510,8 @@ def data_input_params_wiring(a):
                     witness=False)
     if c:
         c["replay"] = replay_param_conflict(a)
+        if not c["replay"].get("reproduced"):
+            c["replay"] = replay_params_modes(a)
         c["reproduced"] = c["replay"].get("reproduced", False)
         a.candidates.append(c)
 
